@@ -32,7 +32,7 @@ ANCHORS = [
 ]
 REQUIRED = ["runs_judged", "plug_events", "unplug_events", "regime:back-to-back-reuse", "regime:simultaneous-events",
             "regime:recompute-after-last-departure", "regime:one-period-session", "connectivity_runs", "second_runs_on_a_reused_queue", "regime:over-128-events-due-at-once", "sched:scripted",
-            "sched:uncontrolled", "sched:sorted", "snapshots_checked", "runs_where_a_waiting_ev_took_over_a_freed_space", "simulators_built_on_an_empty_queue_filled_afterwards"]
+            "sched:uncontrolled", "sched:sorted", "snapshots_checked", "runs_where_a_waiting_ev_took_over_a_freed_space", "simulators_built_on_an_empty_queue_filled_afterwards", "runs_with_all_events_beyond_period_100000"]
 BUDGET_S = {"quick": 240, "thorough": 3000}
 TRACE_RE = re.compile(r"^U*P*S?AX$")
 
@@ -72,7 +72,16 @@ def _corpus():
         out.append({"period": 5, "network": net, "sessions": sess, "recompute": [3], "scheduler": full, "np_seed": 4})
         sess2 = [dict(x, departure=2, est_dep=2) if x["id"].startswith("b") is False else dict(x, arrival=2, departure=4, est_dep=4) for x in sess]
         out.append({"period": 1, "network": net, "sessions": sess2, "recompute": [2, 4], "scheduler": {"kind": "uncontrolled"}, "np_seed": 4})
-    return [{"desc": d, "corpus": True} for d in out]
+    cases_ = [{"desc": d, "corpus": True} for d in out]
+    # far from the time origin: every event beyond period 100000 (70 days of 1-minute periods), back-to-back reuse there
+    for off in (100000, 131071):
+        sess = [{"id": f"f{k}", "station": f"s{k % 2}", "arrival": off + 2 * (k // 2) * 2 + (k % 2), "departure": off + 2 * (k // 2) * 2 + (k % 2) + 2,
+                 "requested": 1e5, "est_dep": off + 2 * (k // 2) * 2 + (k % 2) + 2, "battery": big} for k in range(6)]
+        net2 = {"stations": [{"id": "s0", "evse": ev, "voltage": 208, "phase": 0}, {"id": "s1", "evse": ev, "voltage": 240, "phase": 0}],
+                "constraints": [], "tol": None}
+        cases_.append({"desc": {"period": 1, "network": net2, "sessions": sess, "recompute": [off + 1], "scheduler": dict(full, t0=off, mr=None, full_len=6), "np_seed": 1},
+                       "corpus": True, "far": True})
+    return cases_
 
 
 def cases(seed, tier):
@@ -119,7 +128,9 @@ def run_case(case, obs):
             obs.ev("runs_where_a_waiting_ev_took_over_a_freed_space")
         _judge(case, obs, d, sim, evs, probe)
         return
-    sim, evs, probe = simrun.run_traced(d, late_fill=bool(case.get("late_fill")))
+    sim, evs, probe = simrun.run_traced(d, late_fill=bool(case.get("late_fill")), snapshots=not case.get("far"))
+    if case.get("far"):
+        obs.ev("runs_with_all_events_beyond_period_100000")
     if case.get("late_fill"):
         obs.ev("simulators_built_on_an_empty_queue_filled_afterwards")
     _judge(case, obs, d, sim, evs, probe)
